@@ -26,8 +26,17 @@ use anchor_lang::prelude::Pubkey;
 /// a tick as stored in a tick-array account (113 bytes, packed)
 pub(crate) type TB = [u8; 113];
 
+/// N symbolic bytes, drawn as 16-byte words (a `kani::any::<[u8; N]>()` costs one symbolic-execution loop iteration
+/// per byte, which dominated the run time of these harnesses); W must be >= N / 16 rounded up
+pub(crate) fn any_bytes<const N: usize, const W: usize>() -> [u8; N] {
+    assert!(W * 16 >= N);
+    let w: [u128; W] = kani::any();
+    let mut b = [0u8; N];
+    unsafe { core::ptr::copy_nonoverlapping(w.as_ptr() as *const u8, b.as_mut_ptr(), N) };
+    b
+}
 pub(crate) fn any_tick() -> TB {
-    let b: TB = kani::any();
+    let b: TB = any_bytes::<113, 8>();
     kani::assume(b[0] <= 1); // `initialized` is a bool in every account the program writes
     b
 }
@@ -51,25 +60,38 @@ pub(crate) fn mtick_mut(b: &mut TB) -> &mut MemoryMappedTick {
 pub(crate) fn t_init(b: &TB) -> bool {
     b[0] != 0
 }
+// little-endian field reads at fixed offsets (unaligned pointer reads: a slice + copy_from_slice costs ~50
+// symbolic-execution steps and several bounds checks per read, which add up in Kani's per-check traces)
 pub(crate) fn rd128(b: &[u8], o: usize) -> u128 {
-    let mut x = [0u8; 16];
-    x.copy_from_slice(&b[o..o + 16]);
-    u128::from_le_bytes(x)
+    assert!(o + 16 <= b.len());
+    u128::from_le(unsafe { core::ptr::read_unaligned(b.as_ptr().add(o) as *const u128) })
 }
 pub(crate) fn rd64(b: &[u8], o: usize) -> u64 {
-    let mut x = [0u8; 8];
-    x.copy_from_slice(&b[o..o + 8]);
-    u64::from_le_bytes(x)
+    assert!(o + 8 <= b.len());
+    u64::from_le(unsafe { core::ptr::read_unaligned(b.as_ptr().add(o) as *const u64) })
 }
 pub(crate) fn rd32(b: &[u8], o: usize) -> i32 {
-    let mut x = [0u8; 4];
-    x.copy_from_slice(&b[o..o + 4]);
-    i32::from_le_bytes(x)
+    assert!(o + 4 <= b.len());
+    i32::from_le(unsafe { core::ptr::read_unaligned(b.as_ptr().add(o) as *const i32) })
 }
 pub(crate) fn rd_key(b: &[u8], o: usize) -> [u8; 32] {
-    let mut x = [0u8; 32];
-    x.copy_from_slice(&b[o..o + 32]);
-    x
+    assert!(o + 32 <= b.len());
+    unsafe { core::ptr::read_unaligned(b.as_ptr().add(o) as *const [u8; 32]) }
+}
+pub(crate) fn wr128(b: &mut [u8], o: usize, v: u128) {
+    assert!(o + 16 <= b.len());
+    unsafe { core::ptr::write_unaligned(b.as_mut_ptr().add(o) as *mut u128, v.to_le()) }
+}
+pub(crate) fn wr32(b: &mut [u8], o: usize, v: i32) {
+    assert!(o + 4 <= b.len());
+    unsafe { core::ptr::write_unaligned(b.as_mut_ptr().add(o) as *mut i32, v.to_le()) }
+}
+/// 32-byte equality without a byte loop
+pub(crate) fn key_eq(a: &[u8; 32], b: &[u8; 32]) -> bool {
+    rd128(a, 0) == rd128(b, 0) && rd128(a, 16) == rd128(b, 16)
+}
+pub(crate) fn key_zero(b: &[u8], o: usize) -> bool {
+    rd128(b, o) == 0 && rd128(b, o + 16) == 0
 }
 pub(crate) fn t_net(b: &TB) -> i128 {
     rd128(b, 1) as i128
@@ -105,10 +127,10 @@ pub(crate) struct Rw {
 }
 impl Rw {
     pub fn any() -> Rw {
-        Rw { b: kani::any() }
+        Rw { b: any_bytes::<384, 24>() }
     }
     pub fn initialized(&self, i: usize) -> bool {
-        rd_key(&self.b, 128 * i) != [0u8; 32]
+        !key_zero(&self.b, 128 * i)
     }
     pub fn emissions(&self, i: usize) -> u128 {
         rd128(&self.b, 128 * i + 96)
@@ -121,23 +143,24 @@ impl Rw {
     }
     pub fn with_growths(&self, g: &[u128; 3]) -> Rw {
         let mut b = self.b;
-        for i in 0..3 {
-            b[128 * i + 112..128 * i + 128].copy_from_slice(&g[i].to_le_bytes());
-        }
+        wr128(&mut b, 112, g[0]);
+        wr128(&mut b, 128 + 112, g[1]);
+        wr128(&mut b, 256 + 112, g[2]);
         Rw { b }
     }
     /// Anchor (borsh-deserialised) view
     pub fn anchor(&self) -> [WhirlpoolRewardInfo; 3] {
-        let mut r = [WhirlpoolRewardInfo::default(); 3];
-        for i in 0..3 {
-            let o = 128 * i;
-            r[i].mint = Pubkey::new_from_array(rd_key(&self.b, o));
-            r[i].vault = Pubkey::new_from_array(rd_key(&self.b, o + 32));
-            r[i].extension = rd_key(&self.b, o + 64);
-            r[i].emissions_per_second_x64 = rd128(&self.b, o + 96);
-            r[i].growth_global_x64 = rd128(&self.b, o + 112);
+        [self.anchor1(0), self.anchor1(1), self.anchor1(2)]
+    }
+    fn anchor1(&self, i: usize) -> WhirlpoolRewardInfo {
+        let o = 128 * i;
+        WhirlpoolRewardInfo {
+            mint: Pubkey::new_from_array(rd_key(&self.b, o)),
+            vault: Pubkey::new_from_array(rd_key(&self.b, o + 32)),
+            extension: rd_key(&self.b, o + 64),
+            emissions_per_second_x64: rd128(&self.b, o + 96),
+            growth_global_x64: rd128(&self.b, o + 112),
         }
-        r
     }
     /// Pinocchio memory-mapped view
     pub fn pino(&self) -> &[MemoryMappedWhirlpoolRewardInfo; 3] {
@@ -152,21 +175,63 @@ pub(crate) fn mpos(b: &PB) -> &MemoryMappedPosition {
 }
 /// Anchor (borsh-deserialised) view: field order of `state::Position` after the 8-byte discriminator
 pub(crate) fn pos_of(b: &PB) -> Position {
-    let mut p = Position::default();
-    p.whirlpool = Pubkey::new_from_array(rd_key(b, 8));
-    p.position_mint = Pubkey::new_from_array(rd_key(b, 40));
-    p.liquidity = rd128(b, 72);
-    p.tick_lower_index = rd32(b, 88);
-    p.tick_upper_index = rd32(b, 92);
-    p.fee_growth_checkpoint_a = rd128(b, 96);
-    p.fee_owed_a = rd64(b, 112);
-    p.fee_growth_checkpoint_b = rd128(b, 120);
-    p.fee_owed_b = rd64(b, 136);
-    for i in 0..3 {
-        p.reward_infos[i].growth_inside_checkpoint = rd128(b, 144 + 24 * i);
-        p.reward_infos[i].amount_owed = rd64(b, 160 + 24 * i);
+    let ri = |i: usize| PositionRewardInfo { growth_inside_checkpoint: rd128(b, 144 + 24 * i), amount_owed: rd64(b, 160 + 24 * i) };
+    Position {
+        whirlpool: Pubkey::new_from_array(rd_key(b, 8)),
+        position_mint: Pubkey::new_from_array(rd_key(b, 40)),
+        liquidity: rd128(b, 72),
+        tick_lower_index: rd32(b, 88),
+        tick_upper_index: rd32(b, 92),
+        fee_growth_checkpoint_a: rd128(b, 96),
+        fee_owed_a: rd64(b, 112),
+        fee_growth_checkpoint_b: rd128(b, 120),
+        fee_owed_b: rd64(b, 136),
+        reward_infos: [ri(0), ri(1), ri(2)],
     }
-    p
+}
+
+/// a whirlpool account (653 bytes incl. discriminator)
+pub(crate) type WB = [u8; 653];
+pub(crate) const W_TICK_SPACING: usize = 41;
+pub(crate) const W_LIQUIDITY: usize = 49;
+pub(crate) const W_SQRT_PRICE: usize = 65;
+pub(crate) const W_TICK_CURRENT: usize = 81;
+pub(crate) const W_FEE_GROWTH_A: usize = 165;
+pub(crate) const W_FEE_GROWTH_B: usize = 245;
+pub(crate) const W_REWARD_TS: usize = 261;
+pub(crate) const W_REWARDS: usize = 269;
+pub(crate) fn mwp(b: &WB) -> &::whirlpool::pinocchio::state::whirlpool::MemoryMappedWhirlpool {
+    unsafe { &*(b.as_ptr() as *const ::whirlpool::pinocchio::state::whirlpool::MemoryMappedWhirlpool) }
+}
+pub(crate) fn mwp_mut(b: &mut WB) -> &mut ::whirlpool::pinocchio::state::whirlpool::MemoryMappedWhirlpool {
+    unsafe { &mut *(b.as_mut_ptr() as *mut ::whirlpool::pinocchio::state::whirlpool::MemoryMappedWhirlpool) }
+}
+pub(crate) fn w_rw(b: &WB) -> Rw {
+    Rw { b: unsafe { core::ptr::read_unaligned(b.as_ptr().add(W_REWARDS) as *const [u8; 384]) } }
+}
+/// Anchor (borsh-deserialised) view: field order of `state::Whirlpool` after the 8-byte discriminator
+pub(crate) fn wp_of(b: &WB) -> Whirlpool {
+    Whirlpool {
+        whirlpools_config: Pubkey::new_from_array(rd_key(b, 8)),
+        whirlpool_bump: [b[40]],
+        tick_spacing: u16::from_le_bytes([b[41], b[42]]),
+        fee_tier_index_seed: [b[43], b[44]],
+        fee_rate: u16::from_le_bytes([b[45], b[46]]),
+        protocol_fee_rate: u16::from_le_bytes([b[47], b[48]]),
+        liquidity: rd128(b, W_LIQUIDITY),
+        sqrt_price: rd128(b, W_SQRT_PRICE),
+        tick_current_index: rd32(b, W_TICK_CURRENT),
+        protocol_fee_owed_a: rd64(b, 85),
+        protocol_fee_owed_b: rd64(b, 93),
+        token_mint_a: Pubkey::new_from_array(rd_key(b, 101)),
+        token_vault_a: Pubkey::new_from_array(rd_key(b, 133)),
+        fee_growth_global_a: rd128(b, W_FEE_GROWTH_A),
+        token_mint_b: Pubkey::new_from_array(rd_key(b, 181)),
+        token_vault_b: Pubkey::new_from_array(rd_key(b, 213)),
+        fee_growth_global_b: rd128(b, W_FEE_GROWTH_B),
+        reward_last_updated_timestamp: rd64(b, W_REWARD_TS),
+        reward_infos: w_rw(b).anchor(),
+    }
 }
 
 /// The two implementations under one interface; ticks / rewards / positions are the same bytes for both.
@@ -325,12 +390,23 @@ pub(crate) fn closed(below_lower: bool, below_upper: bool, li: bool, ol: u128, u
         (false, false) => 0,
     }
 }
-/// `E::fee_inside` together with the hint that it equals the closed form
-pub(crate) fn fee_inside_h<E: Eng>(cur: i32, lo: &TB, tl: i32, up: &TB, tu: i32, ga: u128, gb: u128) -> (u128, u128) {
+pub(crate) const TOKEN_A: u8 = 0;
+pub(crate) const TOKEN_B: u8 = 1;
+/// `inside` of one token (the two tokens are separate goals; each harness decides one, like the placements), with
+/// the proved hint that it equals the closed form unless `plain`
+pub(crate) fn fee_inside_h<E: Eng>(tok: u8, plain: bool, cur: i32, lo: &TB, tl: i32, up: &TB, tu: i32, ga: u128, gb: u128) -> u128 {
     let i = E::fee_inside(cur, lo, tl, up, tu, ga, gb);
-    hint(i.0 == closed(cur < tl, cur < tu, t_init(lo), t_out_a(lo), t_init(up), t_out_a(up), ga));
-    hint(i.1 == closed(cur < tl, cur < tu, t_init(lo), t_out_b(lo), t_init(up), t_out_b(up), gb));
-    i
+    if tok == TOKEN_A {
+        if !plain {
+            hint(i.0 == closed(cur < tl, cur < tu, t_init(lo), t_out_a(lo), t_init(up), t_out_a(up), ga));
+        }
+        i.0
+    } else {
+        if !plain {
+            hint(i.1 == closed(cur < tl, cur < tu, t_init(lo), t_out_b(lo), t_init(up), t_out_b(up), gb));
+        }
+        i.1
+    }
 }
 
 // ------------------------------------------------------------------------------------------------
@@ -339,7 +415,7 @@ pub(crate) fn fee_inside_h<E: Eng>(cur: i32, lo: &TB, tl: i32, up: &TB, tu: i32,
 /// L1 for a range whose bounds are both initialised (arbitrary `outside` values — this includes ticks freshly
 /// initialised by the convention, see `conv`): after global_a/b += xa/xb with the current tick fixed,
 /// inside' - inside == x iff lower <= cur < upper, else 0.
-fn l1<E: Eng>(place: u8) {
+fn l1<E: Eng>(tok: u8, place: u8) {
     let lo = any_tick();
     let up = any_tick();
     let tl: i32 = kani::any();
@@ -353,17 +429,15 @@ fn l1<E: Eng>(place: u8) {
     kani::assume(t_init(&lo) && t_init(&up));
     assume_place(place, cur, tl, tu);
 
-    let i0 = fee_inside_h::<E>(cur, &lo, tl, &up, tu, ga, gb);
-    let i1 = fee_inside_h::<E>(cur, &lo, tl, &up, tu, ga.wrapping_add(xa), gb.wrapping_add(xb));
+    let i0 = fee_inside_h::<E>(tok, place == INSIDE, cur, &lo, tl, &up, tu, ga, gb);
+    let i1 = fee_inside_h::<E>(tok, place == INSIDE, cur, &lo, tl, &up, tu, ga.wrapping_add(xa), gb.wrapping_add(xb));
     let in_range = tl <= cur && cur < tu;
-    assert!(i1.0.wrapping_sub(i0.0) == if in_range { xa } else { 0 });
-    assert!(i1.1.wrapping_sub(i0.1) == if in_range { xb } else { 0 });
+    let x = if tok == TOKEN_A { xa } else { xb };
+    assert!(i1.wrapping_sub(i0) == if in_range { x } else { 0 });
 
-    kani::cover!(xa != 0 && xb != 0, "growth");
-    kani::cover!(ga.checked_add(xa).is_none(), "accumulator wraps");
-    if place != BELOW {
-        kani::cover!(cur == tl || cur == tu, "current tick on a bound");
-    }
+    kani::cover!(xa != 0 && xb != 0 && xa != xb, "growth");
+    kani::cover!(if tok == TOKEN_A { ga.checked_add(xa).is_none() } else { gb.checked_add(xb).is_none() }, "accumulator wraps");
+    kani::cover!(if place == BELOW { cur == tl - 1 } else { cur == tl || cur == tu }, "current tick on / next to a bound");
 }
 
 /// Convention for uninitialised bounds, every initialised/uninitialised combination: `inside` computed by the code on
@@ -371,7 +445,7 @@ fn l1<E: Eng>(place: u8) {
 /// `next_tick_modify_liquidity_update` creates for a first deposit at the same (cur, global)). Hence the checkpoint
 /// a position takes when it first adds liquidity is the `inside` of its freshly initialised range, to which L1/L2
 /// (both bounds initialised) apply from then on: growth before the deposit and growth out of range are excluded.
-fn conv<E: Eng>(place: u8) {
+fn conv<E: Eng>(tok: u8, place: u8) {
     let lo = any_tick();
     let up = any_tick();
     let tl: i32 = kani::any();
@@ -391,8 +465,8 @@ fn conv<E: Eng>(place: u8) {
 
     let elo = effective::<E>(&lo, tl, cur, ga, gb, &rw, dl, false);
     let eup = effective::<E>(&up, tu, cur, ga, gb, &rw, du, true);
-    let i0 = fee_inside_h::<E>(cur, &lo, tl, &up, tu, ga, gb);
-    let ie = fee_inside_h::<E>(cur, &elo, tl, &eup, tu, ga, gb);
+    let i0 = fee_inside_h::<E>(tok, false, cur, &lo, tl, &up, tu, ga, gb);
+    let ie = fee_inside_h::<E>(tok, false, cur, &elo, tl, &eup, tu, ga, gb);
     assert!(i0 == ie, "uninitialised-bound convention == freshly initialised tick");
 
     kani::cover!(!t_init(&lo) && !t_init(&up), "both fresh");
@@ -445,9 +519,16 @@ pub(crate) fn crossing(
     (cur1, nlo, nup)
 }
 
+/// for a crossed tick that is not a bound: every initialised bound stays on the same side of the current tick
+/// (follows from the `crossing` assumptions; 32-bit comparisons only)
+pub(crate) fn same_side_hints(lo: &TB, tl: i32, up: &TB, tu: i32, cur0: i32, cur1: i32) {
+    hint(!t_init(lo) || (cur0 < tl) == (cur1 < tl));
+    hint(!t_init(up) || (cur0 < tu) == (cur1 < tu));
+}
+
 /// L2: crossing tick t in the given direction, with the loop's new current tick, leaves fee `inside` (A and B) of every
 /// range [tl, tu) unchanged. The bound that is not crossed may be initialised or not.
-fn l2<E: Eng>(which: u8, a_to_b: bool) {
+fn l2<E: Eng>(tok: u8, which: u8, a_to_b: bool) {
     let lo = any_tick();
     let up = any_tick();
     let tl: i32 = kani::any();
@@ -460,21 +541,19 @@ fn l2<E: Eng>(which: u8, a_to_b: bool) {
     kani::assume(tl < tu);
     let (cur1, nlo, nup) = crossing(which, &lo, tl, &up, tu, t, cur0, a_to_b, ga, gb, &rw);
 
-    let i0 = fee_inside_h::<E>(cur0, &lo, tl, &up, tu, ga, gb);
-    let i1 = fee_inside_h::<E>(cur1, &nlo, tl, &nup, tu, ga, gb);
+    if which == OTHER {
+        // same ticks, same side of every initialised bound: the two evaluations are the same circuit
+        same_side_hints(&lo, tl, &up, tu, cur0, cur1);
+    }
+    let i0 = fee_inside_h::<E>(tok, which == OTHER, cur0, &lo, tl, &up, tu, ga, gb);
+    let i1 = fee_inside_h::<E>(tok, which == OTHER, cur1, &nlo, tl, &nup, tu, ga, gb);
     assert!(i0 == i1, "crossing leaves inside unchanged");
 
-    kani::cover!(t_init(&lo) && t_init(&up), "both bounds initialised");
-    if a_to_b {
-        kani::cover!(cur0 == t, "starting exactly on the tick");
-    }
-    if which == OTHER {
-        kani::cover!(t < tl && t_init(&lo), "crossed tick below the range");
-        kani::cover!(t > tu && t_init(&up), "crossed tick above the range");
-        kani::cover!(tl < t && t < tu && t_init(&lo) && t_init(&up), "crossed tick strictly inside the range");
-    } else {
-        kani::cover!(!t_init(&lo) || !t_init(&up), "other bound uninitialised");
-    }
+    // witnesses (conditions depend on the case so that none is vacuous by construction)
+    let both = t_init(&lo) && t_init(&up);
+    kani::cover!(if which == OTHER { t < tl && t_init(&lo) } else { both }, "OTHER: crossed tick below the range / bound: both bounds initialised");
+    kani::cover!(if which == OTHER { t > tu && t_init(&up) } else { !both }, "OTHER: crossed tick above the range / bound: other bound uninitialised");
+    kani::cover!(if which == OTHER { tl < t && t < tu && both } else { cur0 == if a_to_b { t } else { t - 1 } }, "OTHER: crossed tick strictly inside / bound: start next to the tick");
 }
 
 // ------------------------------------------------------------------------------------------------
@@ -486,9 +565,7 @@ fn l2<E: Eng>(which: u8, a_to_b: bool) {
 /// upper bound, any second tick) is unchanged; removing the last liquidity resets the tick to the zero tick.
 fn l3<E: Eng>() {
     let t = any_tick();
-    let o = any_tick();
     let idx: i32 = kani::any();
-    let oidx: i32 = kani::any();
     let cur: i32 = kani::any();
     let ga: u128 = kani::any();
     let gb: u128 = kani::any();
@@ -496,10 +573,9 @@ fn l3<E: Eng>() {
     let delta: i128 = kani::any();
     let upper: bool = kani::any();
     assume_tick_inv(&t);
-    kani::assume(idx != oidx);
 
     let r = E::modify(&t, idx, cur, ga, gb, &rw, delta, upper);
-    kani::cover!(r.is_ok() && delta > 0 && !t_init(&t), "fresh initialisation");
+    kani::cover!(r.is_ok() && delta > 0 && !t_init(&t) && idx == cur, "fresh initialisation, tick_index == current");
     kani::cover!(r.is_ok() && delta < 0 && t_init(&t), "decrease");
     if let Ok(n) = r {
         if delta == 0 {
@@ -509,19 +585,10 @@ fn l3<E: Eng>() {
             assert!(t_init(&n) && t_gross(&n) != 0);
             assert!(t_out_a(&n) == if idx <= cur { ga } else { 0 });
             assert!(t_out_b(&n) == if idx <= cur { gb } else { 0 });
-            kani::cover!(idx == cur, "tick_index == current");
         } else if t_gross(&n) != 0 {
+            // everything `next_fee_growths_inside` reads of this tick (see `frame`) is untouched
             assert!(t_init(&n));
             assert!(t_out_a(&n) == t_out_a(&t) && t_out_b(&n) == t_out_b(&t));
-            // other ranges sharing this bound
-            let (a0, a1) = if idx < oidx {
-                (E::fee_inside(cur, &t, idx, &o, oidx, ga, gb), E::fee_inside(cur, &n, idx, &o, oidx, ga, gb))
-            } else {
-                (E::fee_inside(cur, &o, oidx, &t, idx, ga, gb), E::fee_inside(cur, &o, oidx, &n, idx, ga, gb))
-            };
-            assert!(a0 == a1, "inside of other ranges bounded by this tick unchanged");
-            kani::cover!(idx < oidx, "shared as lower bound");
-            kani::cover!(idx > oidx, "shared as upper bound");
         } else {
             assert!(same_tick(&n, &[0u8; 113]), "last liquidity removed: zero tick");
             kani::cover!(true, "de-initialisation");
@@ -529,39 +596,138 @@ fn l3<E: Eng>() {
     }
 }
 
+/// frame: fee `inside` reads nothing of a tick but `initialized` and `fee_growth_outside_a/b` — two ticks that agree on
+/// these give the same result whatever their liquidity / reward fields. With L3 ("outside untouched while
+/// gross != 0") this is: a liquidity change at a shared bound does not change `inside` of the other ranges, and
+/// ticks that are not bounds of a range (initialised or removed in between) never enter its `inside`.
+fn frame<E: Eng>() {
+    let lo = any_tick();
+    let up = any_tick();
+    let lo2 = any_tick();
+    let up2 = any_tick();
+    let tl: i32 = kani::any();
+    let tu: i32 = kani::any();
+    let cur: i32 = kani::any();
+    let ga: u128 = kani::any();
+    let gb: u128 = kani::any();
+    kani::assume(tl < tu);
+    kani::assume(t_init(&lo) == t_init(&lo2) && t_init(&up) == t_init(&up2));
+    kani::assume(t_out_a(&lo) == t_out_a(&lo2) && t_out_b(&lo) == t_out_b(&lo2));
+    kani::assume(t_out_a(&up) == t_out_a(&up2) && t_out_b(&up) == t_out_b(&up2));
+    let a = E::fee_inside(cur, &lo, tl, &up, tu, ga, gb);
+    let b = E::fee_inside(cur, &lo2, tl, &up2, tu, ga, gb);
+    assert!(a == b);
+    kani::cover!(t_gross(&lo) != t_gross(&lo2) && t_net(&up) != t_net(&up2) && t_out_r(&lo, 0) != t_out_r(&lo2, 0), "other fields differ");
+}
+
 // ------------------------------------------------------------------------------------------------
 // L4
 
 pub(crate) fn any_pos() -> PB {
-    kani::any()
+    any_bytes::<216, 14>()
+}
+pub(crate) fn any_whirlpool() -> WB {
+    any_bytes::<653, 41>()
+}
+
+// `checked_mul_shift_right` as an uninterpreted function F, Ackermann style: `next_position_modify_liquidity_update` can
+// only ask about (L, inside_x - checkpoint_x) for x in {fee A, fee B, reward 0..2}, so the five outcomes are drawn up
+// front, constrained to be functionally consistent (equal arguments => equal outcome) and exact where that is free
+// (a zero factor gives Ok(0), as in the real function). A call with any other argument sets MS_BAD, which the
+// harness asserts to be false — that is the "which arguments are passed" part of the lemma.
+// (common::memo::stub_checked_mul_shift_right is the same idea with a dynamic table; its symbolic length made
+// these harnesses 2-3x slower and unstable.)
+static mut MS_L: u128 = 0;
+static mut MS_D: [u128; 5] = [0; 5];
+static mut MS_OK: [bool; 5] = [true; 5];
+static mut MS_V: [u64; 5] = [0; 5];
+static mut MS_BAD: bool = false;
+
+pub(crate) fn stub_mul_shift(n0: u128, n1: u128) -> Result<u64, ::whirlpool::errors::ErrorCode> {
+    if n0 == 0 || n1 == 0 {
+        return Ok(0);
+    }
+    unsafe {
+        if n0 != MS_L {
+            MS_BAD = true;
+            return Ok(0);
+        }
+        let mut k = 0;
+        while k < 5 {
+            if MS_D[k] == n1 {
+                return if MS_OK[k] { Ok(MS_V[k]) } else { Err(::whirlpool::errors::ErrorCode::MultiplicationShiftRightOverflow) };
+            }
+            k += 1;
+        }
+        MS_BAD = true;
+        Ok(0)
+    }
+}
+pub(crate) fn mul_shift_bad() -> bool {
+    unsafe { MS_BAD }
+}
+
+/// symbolic position + update arguments + F; returns (position bytes, delta, inside A, inside B, reward insides,
+/// credit[5] = F(L, delta_x) or 0 when F fails, failed[5])
+pub(crate) fn l4_setup() -> (PB, i128, u128, u128, [u128; 3], [u64; 5], [bool; 5]) {
+    let p = any_pos();
+    let delta: i128 = kani::any();
+    let ia: u128 = kani::any();
+    let ib: u128 = kani::any();
+    let ri: [u128; 3] = kani::any();
+    let ok: [bool; 5] = kani::any();
+    let v: [u64; 5] = kani::any();
+    let l = rd128(&p, 72);
+    let d = [
+        ia.wrapping_sub(rd128(&p, 96)),
+        ib.wrapping_sub(rd128(&p, 120)),
+        ri[0].wrapping_sub(rd128(&p, 144)),
+        ri[1].wrapping_sub(rd128(&p, 168)),
+        ri[2].wrapping_sub(rd128(&p, 192)),
+    ];
+    let mut credit = [0u64; 5];
+    let mut failed = [false; 5];
+    for k in 0..5 {
+        if l == 0 || d[k] == 0 {
+            kani::assume(ok[k] && v[k] == 0);
+        }
+        for j in 0..k {
+            if d[j] == d[k] {
+                kani::assume(ok[j] == ok[k] && v[j] == v[k]);
+            }
+        }
+        credit[k] = if ok[k] { v[k] } else { 0 };
+        failed[k] = !ok[k];
+    }
+    unsafe {
+        MS_L = l;
+        MS_D = d;
+        MS_OK = ok;
+        MS_V = v;
+    }
+    (p, delta, ia, ib, ri, credit, failed)
 }
 
 /// L4 (structure; the multiply itself is contract A1, Engine M): with `checked_mul_shift_right` an uninterpreted
 /// function F, fee_owed_x' == fee_owed_x + (F(L, inside_x - checkpoint_x mod 2^128) or 0 if F overflows)  (wrapping u64),
 /// checkpoint_x' == inside_x, liquidity' == L + delta, Err iff L + delta leaves u128.
 fn l4<E: Eng>() {
-    let p = any_pos();
-    let delta: i128 = kani::any();
-    let ia: u128 = kani::any();
-    let ib: u128 = kani::any();
-    let ri: [u128; 3] = kani::any();
+    let (p, delta, ia, ib, ri, credit, failed) = l4_setup();
     let l = rd128(&p, 72);
-    let (ca, oa, cb, ob) = (rd128(&p, 96), rd64(&p, 112), rd128(&p, 120), rd64(&p, 136));
+    let (oa, ob) = (rd64(&p, 112), rd64(&p, 136));
 
     let r = E::pos_update(&p, delta, ia, ib, &ri);
 
-    // F on the arguments the property names; the memo table makes equal arguments give the value the code saw
-    let fa = memo::stub_checked_mul_shift_right(l, ia.wrapping_sub(ca));
-    let fb = memo::stub_checked_mul_shift_right(l, ib.wrapping_sub(cb));
+    assert!(!mul_shift_bad(), "F is only applied to (L, inside_x - checkpoint_x)");
     let lnext = if delta >= 0 { l.checked_add(delta as u128) } else { l.checked_sub(delta.unsigned_abs()) };
-    kani::cover!(r.is_ok() && fa.is_err(), "overflowing credit A");
-    kani::cover!(r.is_ok() && matches!(fb, Ok(v) if v != 0), "non-zero credit B");
+    kani::cover!(r.is_ok() && failed[0] && oa != 0, "overflowing credit A dropped");
+    kani::cover!(r.is_ok() && credit[1] != 0, "non-zero credit B");
     kani::cover!(r.is_err(), "liquidity error");
     match r {
         Ok(u) => {
             assert!(u.fee_growth_checkpoint_a == ia && u.fee_growth_checkpoint_b == ib);
-            assert!(u.fee_owed_a == oa.wrapping_add(fa.unwrap_or(0)), "credit A = F(L, inside - checkpoint), 0 on overflow");
-            assert!(u.fee_owed_b == ob.wrapping_add(fb.unwrap_or(0)), "credit B = F(L, inside - checkpoint), 0 on overflow");
+            assert!(u.fee_owed_a == oa.wrapping_add(credit[0]), "credit A = F(L, inside - checkpoint), 0 on overflow");
+            assert!(u.fee_owed_b == ob.wrapping_add(credit[1]), "credit B = F(L, inside - checkpoint), 0 on overflow");
             assert!(lnext == Some(u.liquidity));
             if l == 0 {
                 assert!(u.fee_owed_a == oa && u.fee_owed_b == ob); // nothing earned before liquidity was added
@@ -575,141 +741,273 @@ fn l4<E: Eng>() {
 }
 
 // ------------------------------------------------------------------------------------------------
-// harnesses (Anchor functions, then their Pinocchio ports on the same bytes)
+// harnesses: one per (implementation, token, case). Anchor functions first, then their Pinocchio ports on the same bytes.
 
-/// L1 `next_fee_growths_inside` (tokens A, B), global += x at fixed current tick, cur < lower: inside unchanged; both bounds initialised, all u128 values incl. wrap-around
+/// L1 `next_fee_growths_inside` token A: global += x at fixed current tick, cur < lower: inside unchanged; both bounds initialised, all u128 values incl. wrap-around
 // @verif prop=C07 tier=quick timeout=300
 #[kani::proof]
 #[kani::unwind(34)]
 #[kani::stub(alloc::fmt::format, stub_format)]
 #[kani::stub(<anchor_lang::error::Error as core::convert::From<::whirlpool::errors::ErrorCode>>::from, stub_err_from_code)]
 #[kani::stub(<::whirlpool::pinocchio::errors::UnifiedError as core::convert::From<::whirlpool::errors::ErrorCode>>::from, stub_unified_from_code)]
-fn c07_l1_below_anchor() {
-    l1::<Anchor>(BELOW);
+fn c07_l1_a_below_anchor() {
+    l1::<Anchor>(TOKEN_A, BELOW);
 }
 
-/// L1 `next_fee_growths_inside` (tokens A, B), global += x at fixed current tick, lower <= cur < upper: inside grows by exactly x; both bounds initialised, all u128 values incl. wrap-around
+/// L1 `next_fee_growths_inside` token A: global += x at fixed current tick, lower <= cur < upper: inside grows by exactly x; both bounds initialised, all u128 values incl. wrap-around
 // @verif prop=C07 tier=quick timeout=300
 #[kani::proof]
 #[kani::unwind(34)]
 #[kani::stub(alloc::fmt::format, stub_format)]
 #[kani::stub(<anchor_lang::error::Error as core::convert::From<::whirlpool::errors::ErrorCode>>::from, stub_err_from_code)]
 #[kani::stub(<::whirlpool::pinocchio::errors::UnifiedError as core::convert::From<::whirlpool::errors::ErrorCode>>::from, stub_unified_from_code)]
-fn c07_l1_inside_anchor() {
-    l1::<Anchor>(INSIDE);
+fn c07_l1_a_inside_anchor() {
+    l1::<Anchor>(TOKEN_A, INSIDE);
 }
 
-/// L1 `next_fee_growths_inside` (tokens A, B), global += x at fixed current tick, cur >= upper: inside unchanged; both bounds initialised, all u128 values incl. wrap-around
+/// L1 `next_fee_growths_inside` token A: global += x at fixed current tick, cur >= upper: inside unchanged; both bounds initialised, all u128 values incl. wrap-around
 // @verif prop=C07 tier=quick timeout=300
 #[kani::proof]
 #[kani::unwind(34)]
 #[kani::stub(alloc::fmt::format, stub_format)]
 #[kani::stub(<anchor_lang::error::Error as core::convert::From<::whirlpool::errors::ErrorCode>>::from, stub_err_from_code)]
 #[kani::stub(<::whirlpool::pinocchio::errors::UnifiedError as core::convert::From<::whirlpool::errors::ErrorCode>>::from, stub_unified_from_code)]
-fn c07_l1_above_anchor() {
-    l1::<Anchor>(ABOVE);
+fn c07_l1_a_above_anchor() {
+    l1::<Anchor>(TOKEN_A, ABOVE);
 }
 
-/// L1/L3 `next_fee_growths_inside` + `next_tick_modify_liquidity_update`: an uninitialised bound counts exactly like the tick the first deposit creates (all 3 combinations with an uninitialised bound), current tick below
+/// L1 `next_fee_growths_inside` token B: global += x at fixed current tick, cur < lower: inside unchanged; both bounds initialised, all u128 values incl. wrap-around
 // @verif prop=C07 tier=quick timeout=300
 #[kani::proof]
 #[kani::unwind(34)]
 #[kani::stub(alloc::fmt::format, stub_format)]
 #[kani::stub(<anchor_lang::error::Error as core::convert::From<::whirlpool::errors::ErrorCode>>::from, stub_err_from_code)]
 #[kani::stub(<::whirlpool::pinocchio::errors::UnifiedError as core::convert::From<::whirlpool::errors::ErrorCode>>::from, stub_unified_from_code)]
-fn c07_conv_below_anchor() {
-    conv::<Anchor>(BELOW);
+fn c07_l1_b_below_anchor() {
+    l1::<Anchor>(TOKEN_B, BELOW);
 }
 
-/// L1/L3 `next_fee_growths_inside` + `next_tick_modify_liquidity_update`: an uninitialised bound counts exactly like the tick the first deposit creates (all 3 combinations with an uninitialised bound), current tick inside
+/// L1 `next_fee_growths_inside` token B: global += x at fixed current tick, lower <= cur < upper: inside grows by exactly x; both bounds initialised, all u128 values incl. wrap-around
 // @verif prop=C07 tier=quick timeout=300
 #[kani::proof]
 #[kani::unwind(34)]
 #[kani::stub(alloc::fmt::format, stub_format)]
 #[kani::stub(<anchor_lang::error::Error as core::convert::From<::whirlpool::errors::ErrorCode>>::from, stub_err_from_code)]
 #[kani::stub(<::whirlpool::pinocchio::errors::UnifiedError as core::convert::From<::whirlpool::errors::ErrorCode>>::from, stub_unified_from_code)]
-fn c07_conv_inside_anchor() {
-    conv::<Anchor>(INSIDE);
+fn c07_l1_b_inside_anchor() {
+    l1::<Anchor>(TOKEN_B, INSIDE);
 }
 
-/// L1/L3 `next_fee_growths_inside` + `next_tick_modify_liquidity_update`: an uninitialised bound counts exactly like the tick the first deposit creates (all 3 combinations with an uninitialised bound), current tick above
+/// L1 `next_fee_growths_inside` token B: global += x at fixed current tick, cur >= upper: inside unchanged; both bounds initialised, all u128 values incl. wrap-around
 // @verif prop=C07 tier=quick timeout=300
 #[kani::proof]
 #[kani::unwind(34)]
 #[kani::stub(alloc::fmt::format, stub_format)]
 #[kani::stub(<anchor_lang::error::Error as core::convert::From<::whirlpool::errors::ErrorCode>>::from, stub_err_from_code)]
 #[kani::stub(<::whirlpool::pinocchio::errors::UnifiedError as core::convert::From<::whirlpool::errors::ErrorCode>>::from, stub_unified_from_code)]
-fn c07_conv_above_anchor() {
-    conv::<Anchor>(ABOVE);
+fn c07_l1_b_above_anchor() {
+    l1::<Anchor>(TOKEN_B, ABOVE);
 }
 
-/// L2 `next_tick_cross_update` + `next_fee_growths_inside`: crossing initialised tick t leaves `inside` (A, B) of range [lower, upper) unchanged; t == lower, a_to_b (cur >= t before, t - 1 after)
+/// L1/L3 `next_fee_growths_inside` + `next_tick_modify_liquidity_update` token A: an uninitialised bound counts exactly like the tick the first deposit creates (all 3 combinations with an uninitialised bound), current tick below
 // @verif prop=C07 tier=quick timeout=300
 #[kani::proof]
 #[kani::unwind(34)]
 #[kani::stub(alloc::fmt::format, stub_format)]
 #[kani::stub(<anchor_lang::error::Error as core::convert::From<::whirlpool::errors::ErrorCode>>::from, stub_err_from_code)]
 #[kani::stub(<::whirlpool::pinocchio::errors::UnifiedError as core::convert::From<::whirlpool::errors::ErrorCode>>::from, stub_unified_from_code)]
-fn c07_l2_lower_down_anchor() {
-    l2::<Anchor>(LOWER, true);
+fn c07_conv_a_below_anchor() {
+    conv::<Anchor>(TOKEN_A, BELOW);
 }
 
-/// L2 `next_tick_cross_update` + `next_fee_growths_inside`: crossing initialised tick t leaves `inside` (A, B) of range [lower, upper) unchanged; t == lower, b_to_a (cur < t before, t after)
+/// L1/L3 `next_fee_growths_inside` + `next_tick_modify_liquidity_update` token A: an uninitialised bound counts exactly like the tick the first deposit creates (all 3 combinations with an uninitialised bound), current tick inside
 // @verif prop=C07 tier=quick timeout=300
 #[kani::proof]
 #[kani::unwind(34)]
 #[kani::stub(alloc::fmt::format, stub_format)]
 #[kani::stub(<anchor_lang::error::Error as core::convert::From<::whirlpool::errors::ErrorCode>>::from, stub_err_from_code)]
 #[kani::stub(<::whirlpool::pinocchio::errors::UnifiedError as core::convert::From<::whirlpool::errors::ErrorCode>>::from, stub_unified_from_code)]
-fn c07_l2_lower_up_anchor() {
-    l2::<Anchor>(LOWER, false);
+fn c07_conv_a_inside_anchor() {
+    conv::<Anchor>(TOKEN_A, INSIDE);
 }
 
-/// L2 `next_tick_cross_update` + `next_fee_growths_inside`: crossing initialised tick t leaves `inside` (A, B) of range [lower, upper) unchanged; t == upper, a_to_b (cur >= t before, t - 1 after)
+/// L1/L3 `next_fee_growths_inside` + `next_tick_modify_liquidity_update` token A: an uninitialised bound counts exactly like the tick the first deposit creates (all 3 combinations with an uninitialised bound), current tick above
 // @verif prop=C07 tier=quick timeout=300
 #[kani::proof]
 #[kani::unwind(34)]
 #[kani::stub(alloc::fmt::format, stub_format)]
 #[kani::stub(<anchor_lang::error::Error as core::convert::From<::whirlpool::errors::ErrorCode>>::from, stub_err_from_code)]
 #[kani::stub(<::whirlpool::pinocchio::errors::UnifiedError as core::convert::From<::whirlpool::errors::ErrorCode>>::from, stub_unified_from_code)]
-fn c07_l2_upper_down_anchor() {
-    l2::<Anchor>(UPPER, true);
+fn c07_conv_a_above_anchor() {
+    conv::<Anchor>(TOKEN_A, ABOVE);
 }
 
-/// L2 `next_tick_cross_update` + `next_fee_growths_inside`: crossing initialised tick t leaves `inside` (A, B) of range [lower, upper) unchanged; t == upper, b_to_a (cur < t before, t after)
+/// L1/L3 `next_fee_growths_inside` + `next_tick_modify_liquidity_update` token B: an uninitialised bound counts exactly like the tick the first deposit creates (all 3 combinations with an uninitialised bound), current tick below
 // @verif prop=C07 tier=quick timeout=300
 #[kani::proof]
 #[kani::unwind(34)]
 #[kani::stub(alloc::fmt::format, stub_format)]
 #[kani::stub(<anchor_lang::error::Error as core::convert::From<::whirlpool::errors::ErrorCode>>::from, stub_err_from_code)]
 #[kani::stub(<::whirlpool::pinocchio::errors::UnifiedError as core::convert::From<::whirlpool::errors::ErrorCode>>::from, stub_unified_from_code)]
-fn c07_l2_upper_up_anchor() {
-    l2::<Anchor>(UPPER, false);
+fn c07_conv_b_below_anchor() {
+    conv::<Anchor>(TOKEN_B, BELOW);
 }
 
-/// L2 `next_tick_cross_update` + `next_fee_growths_inside`: crossing initialised tick t leaves `inside` (A, B) of range [lower, upper) unchanged; t is neither bound (below / above / strictly inside the range), a_to_b (cur >= t before, t - 1 after)
+/// L1/L3 `next_fee_growths_inside` + `next_tick_modify_liquidity_update` token B: an uninitialised bound counts exactly like the tick the first deposit creates (all 3 combinations with an uninitialised bound), current tick inside
 // @verif prop=C07 tier=quick timeout=300
 #[kani::proof]
 #[kani::unwind(34)]
 #[kani::stub(alloc::fmt::format, stub_format)]
 #[kani::stub(<anchor_lang::error::Error as core::convert::From<::whirlpool::errors::ErrorCode>>::from, stub_err_from_code)]
 #[kani::stub(<::whirlpool::pinocchio::errors::UnifiedError as core::convert::From<::whirlpool::errors::ErrorCode>>::from, stub_unified_from_code)]
-fn c07_l2_other_down_anchor() {
-    l2::<Anchor>(OTHER, true);
+fn c07_conv_b_inside_anchor() {
+    conv::<Anchor>(TOKEN_B, INSIDE);
 }
 
-/// L2 `next_tick_cross_update` + `next_fee_growths_inside`: crossing initialised tick t leaves `inside` (A, B) of range [lower, upper) unchanged; t is neither bound (below / above / strictly inside the range), b_to_a (cur < t before, t after)
+/// L1/L3 `next_fee_growths_inside` + `next_tick_modify_liquidity_update` token B: an uninitialised bound counts exactly like the tick the first deposit creates (all 3 combinations with an uninitialised bound), current tick above
 // @verif prop=C07 tier=quick timeout=300
 #[kani::proof]
 #[kani::unwind(34)]
 #[kani::stub(alloc::fmt::format, stub_format)]
 #[kani::stub(<anchor_lang::error::Error as core::convert::From<::whirlpool::errors::ErrorCode>>::from, stub_err_from_code)]
 #[kani::stub(<::whirlpool::pinocchio::errors::UnifiedError as core::convert::From<::whirlpool::errors::ErrorCode>>::from, stub_unified_from_code)]
-fn c07_l2_other_up_anchor() {
-    l2::<Anchor>(OTHER, false);
+fn c07_conv_b_above_anchor() {
+    conv::<Anchor>(TOKEN_B, ABOVE);
 }
 
-/// L3 `next_tick_modify_liquidity_update`: initialisation convention outside := global iff tick_index <= cur; outside untouched while gross != 0 (so `inside` of ranges sharing the bound is unchanged); zero tick on de-initialisation
+/// L2 `next_tick_cross_update` + `next_fee_growths_inside` token A: crossing initialised tick t leaves `inside` of range [lower, upper) unchanged; t == lower, a_to_b (cur >= t before, t - 1 after)
+// @verif prop=C07 tier=quick timeout=300
+#[kani::proof]
+#[kani::unwind(34)]
+#[kani::stub(alloc::fmt::format, stub_format)]
+#[kani::stub(<anchor_lang::error::Error as core::convert::From<::whirlpool::errors::ErrorCode>>::from, stub_err_from_code)]
+#[kani::stub(<::whirlpool::pinocchio::errors::UnifiedError as core::convert::From<::whirlpool::errors::ErrorCode>>::from, stub_unified_from_code)]
+fn c07_l2_a_lower_down_anchor() {
+    l2::<Anchor>(TOKEN_A, LOWER, true);
+}
+
+/// L2 `next_tick_cross_update` + `next_fee_growths_inside` token A: crossing initialised tick t leaves `inside` of range [lower, upper) unchanged; t == lower, b_to_a (cur < t before, t after)
+// @verif prop=C07 tier=quick timeout=300
+#[kani::proof]
+#[kani::unwind(34)]
+#[kani::stub(alloc::fmt::format, stub_format)]
+#[kani::stub(<anchor_lang::error::Error as core::convert::From<::whirlpool::errors::ErrorCode>>::from, stub_err_from_code)]
+#[kani::stub(<::whirlpool::pinocchio::errors::UnifiedError as core::convert::From<::whirlpool::errors::ErrorCode>>::from, stub_unified_from_code)]
+fn c07_l2_a_lower_up_anchor() {
+    l2::<Anchor>(TOKEN_A, LOWER, false);
+}
+
+/// L2 `next_tick_cross_update` + `next_fee_growths_inside` token A: crossing initialised tick t leaves `inside` of range [lower, upper) unchanged; t == upper, a_to_b (cur >= t before, t - 1 after)
+// @verif prop=C07 tier=quick timeout=300
+#[kani::proof]
+#[kani::unwind(34)]
+#[kani::stub(alloc::fmt::format, stub_format)]
+#[kani::stub(<anchor_lang::error::Error as core::convert::From<::whirlpool::errors::ErrorCode>>::from, stub_err_from_code)]
+#[kani::stub(<::whirlpool::pinocchio::errors::UnifiedError as core::convert::From<::whirlpool::errors::ErrorCode>>::from, stub_unified_from_code)]
+fn c07_l2_a_upper_down_anchor() {
+    l2::<Anchor>(TOKEN_A, UPPER, true);
+}
+
+/// L2 `next_tick_cross_update` + `next_fee_growths_inside` token A: crossing initialised tick t leaves `inside` of range [lower, upper) unchanged; t == upper, b_to_a (cur < t before, t after)
+// @verif prop=C07 tier=quick timeout=300
+#[kani::proof]
+#[kani::unwind(34)]
+#[kani::stub(alloc::fmt::format, stub_format)]
+#[kani::stub(<anchor_lang::error::Error as core::convert::From<::whirlpool::errors::ErrorCode>>::from, stub_err_from_code)]
+#[kani::stub(<::whirlpool::pinocchio::errors::UnifiedError as core::convert::From<::whirlpool::errors::ErrorCode>>::from, stub_unified_from_code)]
+fn c07_l2_a_upper_up_anchor() {
+    l2::<Anchor>(TOKEN_A, UPPER, false);
+}
+
+/// L2 `next_tick_cross_update` + `next_fee_growths_inside` token A: crossing initialised tick t leaves `inside` of range [lower, upper) unchanged; t is neither bound (below / above / strictly inside the range), a_to_b (cur >= t before, t - 1 after)
+// @verif prop=C07 tier=quick timeout=300
+#[kani::proof]
+#[kani::unwind(34)]
+#[kani::stub(alloc::fmt::format, stub_format)]
+#[kani::stub(<anchor_lang::error::Error as core::convert::From<::whirlpool::errors::ErrorCode>>::from, stub_err_from_code)]
+#[kani::stub(<::whirlpool::pinocchio::errors::UnifiedError as core::convert::From<::whirlpool::errors::ErrorCode>>::from, stub_unified_from_code)]
+fn c07_l2_a_other_down_anchor() {
+    l2::<Anchor>(TOKEN_A, OTHER, true);
+}
+
+/// L2 `next_tick_cross_update` + `next_fee_growths_inside` token A: crossing initialised tick t leaves `inside` of range [lower, upper) unchanged; t is neither bound (below / above / strictly inside the range), b_to_a (cur < t before, t after)
+// @verif prop=C07 tier=quick timeout=300
+#[kani::proof]
+#[kani::unwind(34)]
+#[kani::stub(alloc::fmt::format, stub_format)]
+#[kani::stub(<anchor_lang::error::Error as core::convert::From<::whirlpool::errors::ErrorCode>>::from, stub_err_from_code)]
+#[kani::stub(<::whirlpool::pinocchio::errors::UnifiedError as core::convert::From<::whirlpool::errors::ErrorCode>>::from, stub_unified_from_code)]
+fn c07_l2_a_other_up_anchor() {
+    l2::<Anchor>(TOKEN_A, OTHER, false);
+}
+
+/// L2 `next_tick_cross_update` + `next_fee_growths_inside` token B: crossing initialised tick t leaves `inside` of range [lower, upper) unchanged; t == lower, a_to_b (cur >= t before, t - 1 after)
+// @verif prop=C07 tier=quick timeout=300
+#[kani::proof]
+#[kani::unwind(34)]
+#[kani::stub(alloc::fmt::format, stub_format)]
+#[kani::stub(<anchor_lang::error::Error as core::convert::From<::whirlpool::errors::ErrorCode>>::from, stub_err_from_code)]
+#[kani::stub(<::whirlpool::pinocchio::errors::UnifiedError as core::convert::From<::whirlpool::errors::ErrorCode>>::from, stub_unified_from_code)]
+fn c07_l2_b_lower_down_anchor() {
+    l2::<Anchor>(TOKEN_B, LOWER, true);
+}
+
+/// L2 `next_tick_cross_update` + `next_fee_growths_inside` token B: crossing initialised tick t leaves `inside` of range [lower, upper) unchanged; t == lower, b_to_a (cur < t before, t after)
+// @verif prop=C07 tier=quick timeout=300
+#[kani::proof]
+#[kani::unwind(34)]
+#[kani::stub(alloc::fmt::format, stub_format)]
+#[kani::stub(<anchor_lang::error::Error as core::convert::From<::whirlpool::errors::ErrorCode>>::from, stub_err_from_code)]
+#[kani::stub(<::whirlpool::pinocchio::errors::UnifiedError as core::convert::From<::whirlpool::errors::ErrorCode>>::from, stub_unified_from_code)]
+fn c07_l2_b_lower_up_anchor() {
+    l2::<Anchor>(TOKEN_B, LOWER, false);
+}
+
+/// L2 `next_tick_cross_update` + `next_fee_growths_inside` token B: crossing initialised tick t leaves `inside` of range [lower, upper) unchanged; t == upper, a_to_b (cur >= t before, t - 1 after)
+// @verif prop=C07 tier=quick timeout=300
+#[kani::proof]
+#[kani::unwind(34)]
+#[kani::stub(alloc::fmt::format, stub_format)]
+#[kani::stub(<anchor_lang::error::Error as core::convert::From<::whirlpool::errors::ErrorCode>>::from, stub_err_from_code)]
+#[kani::stub(<::whirlpool::pinocchio::errors::UnifiedError as core::convert::From<::whirlpool::errors::ErrorCode>>::from, stub_unified_from_code)]
+fn c07_l2_b_upper_down_anchor() {
+    l2::<Anchor>(TOKEN_B, UPPER, true);
+}
+
+/// L2 `next_tick_cross_update` + `next_fee_growths_inside` token B: crossing initialised tick t leaves `inside` of range [lower, upper) unchanged; t == upper, b_to_a (cur < t before, t after)
+// @verif prop=C07 tier=quick timeout=300
+#[kani::proof]
+#[kani::unwind(34)]
+#[kani::stub(alloc::fmt::format, stub_format)]
+#[kani::stub(<anchor_lang::error::Error as core::convert::From<::whirlpool::errors::ErrorCode>>::from, stub_err_from_code)]
+#[kani::stub(<::whirlpool::pinocchio::errors::UnifiedError as core::convert::From<::whirlpool::errors::ErrorCode>>::from, stub_unified_from_code)]
+fn c07_l2_b_upper_up_anchor() {
+    l2::<Anchor>(TOKEN_B, UPPER, false);
+}
+
+/// L2 `next_tick_cross_update` + `next_fee_growths_inside` token B: crossing initialised tick t leaves `inside` of range [lower, upper) unchanged; t is neither bound (below / above / strictly inside the range), a_to_b (cur >= t before, t - 1 after)
+// @verif prop=C07 tier=quick timeout=300
+#[kani::proof]
+#[kani::unwind(34)]
+#[kani::stub(alloc::fmt::format, stub_format)]
+#[kani::stub(<anchor_lang::error::Error as core::convert::From<::whirlpool::errors::ErrorCode>>::from, stub_err_from_code)]
+#[kani::stub(<::whirlpool::pinocchio::errors::UnifiedError as core::convert::From<::whirlpool::errors::ErrorCode>>::from, stub_unified_from_code)]
+fn c07_l2_b_other_down_anchor() {
+    l2::<Anchor>(TOKEN_B, OTHER, true);
+}
+
+/// L2 `next_tick_cross_update` + `next_fee_growths_inside` token B: crossing initialised tick t leaves `inside` of range [lower, upper) unchanged; t is neither bound (below / above / strictly inside the range), b_to_a (cur < t before, t after)
+// @verif prop=C07 tier=quick timeout=300
+#[kani::proof]
+#[kani::unwind(34)]
+#[kani::stub(alloc::fmt::format, stub_format)]
+#[kani::stub(<anchor_lang::error::Error as core::convert::From<::whirlpool::errors::ErrorCode>>::from, stub_err_from_code)]
+#[kani::stub(<::whirlpool::pinocchio::errors::UnifiedError as core::convert::From<::whirlpool::errors::ErrorCode>>::from, stub_unified_from_code)]
+fn c07_l2_b_other_up_anchor() {
+    l2::<Anchor>(TOKEN_B, OTHER, false);
+}
+
+/// L3 `next_tick_modify_liquidity_update`: initialisation convention outside := global iff tick_index <= cur (A and B); outside and `initialized` untouched while gross != 0; zero tick on de-initialisation
 // @verif prop=C07 tier=quick timeout=300
 #[kani::proof]
 #[kani::unwind(34)]
@@ -720,6 +1018,17 @@ fn c07_l3_modify_anchor() {
     l3::<Anchor>();
 }
 
+/// frame `next_fee_growths_inside`: depends on a bound tick only through `initialized` and `fee_growth_outside_a/b` (other ranges sharing a bound, other ticks: no influence)
+// @verif prop=C07 tier=quick timeout=300
+#[kani::proof]
+#[kani::unwind(34)]
+#[kani::stub(alloc::fmt::format, stub_format)]
+#[kani::stub(<anchor_lang::error::Error as core::convert::From<::whirlpool::errors::ErrorCode>>::from, stub_err_from_code)]
+#[kani::stub(<::whirlpool::pinocchio::errors::UnifiedError as core::convert::From<::whirlpool::errors::ErrorCode>>::from, stub_unified_from_code)]
+fn c07_frame_inside_anchor() {
+    frame::<Anchor>();
+}
+
 /// L4 `next_position_modify_liquidity_update` (tokens A, B): credit structure with `checked_mul_shift_right` uninterpreted: owed += F(L, inside - checkpoint mod 2^128), +0 when F overflows; checkpoint := inside; liquidity += delta or error
 // @verif prop=C07 tier=quick timeout=300
 #[kani::proof]
@@ -727,144 +1036,276 @@ fn c07_l3_modify_anchor() {
 #[kani::stub(alloc::fmt::format, stub_format)]
 #[kani::stub(<anchor_lang::error::Error as core::convert::From<::whirlpool::errors::ErrorCode>>::from, stub_err_from_code)]
 #[kani::stub(<::whirlpool::pinocchio::errors::UnifiedError as core::convert::From<::whirlpool::errors::ErrorCode>>::from, stub_unified_from_code)]
-#[kani::stub(::whirlpool::math::bit_math::checked_mul_shift_right, memo::stub_checked_mul_shift_right)]
+#[kani::stub(::whirlpool::math::bit_math::checked_mul_shift_right, stub_mul_shift)]
 fn c07_l4_credit_anchor() {
     l4::<Anchor>();
 }
 
-/// L1 `pino_next_fee_growths_inside` (tokens A, B), global += x at fixed current tick, cur < lower: inside unchanged; both bounds initialised, all u128 values incl. wrap-around
+/// L1 `pino_next_fee_growths_inside` token A: global += x at fixed current tick, cur < lower: inside unchanged; both bounds initialised, all u128 values incl. wrap-around
 // @verif prop=C07 tier=quick timeout=300
 #[kani::proof]
 #[kani::unwind(34)]
 #[kani::stub(alloc::fmt::format, stub_format)]
 #[kani::stub(<anchor_lang::error::Error as core::convert::From<::whirlpool::errors::ErrorCode>>::from, stub_err_from_code)]
 #[kani::stub(<::whirlpool::pinocchio::errors::UnifiedError as core::convert::From<::whirlpool::errors::ErrorCode>>::from, stub_unified_from_code)]
-fn c07_l1_below_pino() {
-    l1::<Pino>(BELOW);
+fn c07_l1_a_below_pino() {
+    l1::<Pino>(TOKEN_A, BELOW);
 }
 
-/// L1 `pino_next_fee_growths_inside` (tokens A, B), global += x at fixed current tick, lower <= cur < upper: inside grows by exactly x; both bounds initialised, all u128 values incl. wrap-around
+/// L1 `pino_next_fee_growths_inside` token A: global += x at fixed current tick, lower <= cur < upper: inside grows by exactly x; both bounds initialised, all u128 values incl. wrap-around
 // @verif prop=C07 tier=quick timeout=300
 #[kani::proof]
 #[kani::unwind(34)]
 #[kani::stub(alloc::fmt::format, stub_format)]
 #[kani::stub(<anchor_lang::error::Error as core::convert::From<::whirlpool::errors::ErrorCode>>::from, stub_err_from_code)]
 #[kani::stub(<::whirlpool::pinocchio::errors::UnifiedError as core::convert::From<::whirlpool::errors::ErrorCode>>::from, stub_unified_from_code)]
-fn c07_l1_inside_pino() {
-    l1::<Pino>(INSIDE);
+fn c07_l1_a_inside_pino() {
+    l1::<Pino>(TOKEN_A, INSIDE);
 }
 
-/// L1 `pino_next_fee_growths_inside` (tokens A, B), global += x at fixed current tick, cur >= upper: inside unchanged; both bounds initialised, all u128 values incl. wrap-around
+/// L1 `pino_next_fee_growths_inside` token A: global += x at fixed current tick, cur >= upper: inside unchanged; both bounds initialised, all u128 values incl. wrap-around
 // @verif prop=C07 tier=quick timeout=300
 #[kani::proof]
 #[kani::unwind(34)]
 #[kani::stub(alloc::fmt::format, stub_format)]
 #[kani::stub(<anchor_lang::error::Error as core::convert::From<::whirlpool::errors::ErrorCode>>::from, stub_err_from_code)]
 #[kani::stub(<::whirlpool::pinocchio::errors::UnifiedError as core::convert::From<::whirlpool::errors::ErrorCode>>::from, stub_unified_from_code)]
-fn c07_l1_above_pino() {
-    l1::<Pino>(ABOVE);
+fn c07_l1_a_above_pino() {
+    l1::<Pino>(TOKEN_A, ABOVE);
 }
 
-/// L1/L3 `pino_next_fee_growths_inside` + `pino_next_tick_modify_liquidity_update`: an uninitialised bound counts exactly like the tick the first deposit creates (all 3 combinations with an uninitialised bound), current tick below
+/// L1 `pino_next_fee_growths_inside` token B: global += x at fixed current tick, cur < lower: inside unchanged; both bounds initialised, all u128 values incl. wrap-around
 // @verif prop=C07 tier=quick timeout=300
 #[kani::proof]
 #[kani::unwind(34)]
 #[kani::stub(alloc::fmt::format, stub_format)]
 #[kani::stub(<anchor_lang::error::Error as core::convert::From<::whirlpool::errors::ErrorCode>>::from, stub_err_from_code)]
 #[kani::stub(<::whirlpool::pinocchio::errors::UnifiedError as core::convert::From<::whirlpool::errors::ErrorCode>>::from, stub_unified_from_code)]
-fn c07_conv_below_pino() {
-    conv::<Pino>(BELOW);
+fn c07_l1_b_below_pino() {
+    l1::<Pino>(TOKEN_B, BELOW);
 }
 
-/// L1/L3 `pino_next_fee_growths_inside` + `pino_next_tick_modify_liquidity_update`: an uninitialised bound counts exactly like the tick the first deposit creates (all 3 combinations with an uninitialised bound), current tick inside
+/// L1 `pino_next_fee_growths_inside` token B: global += x at fixed current tick, lower <= cur < upper: inside grows by exactly x; both bounds initialised, all u128 values incl. wrap-around
 // @verif prop=C07 tier=quick timeout=300
 #[kani::proof]
 #[kani::unwind(34)]
 #[kani::stub(alloc::fmt::format, stub_format)]
 #[kani::stub(<anchor_lang::error::Error as core::convert::From<::whirlpool::errors::ErrorCode>>::from, stub_err_from_code)]
 #[kani::stub(<::whirlpool::pinocchio::errors::UnifiedError as core::convert::From<::whirlpool::errors::ErrorCode>>::from, stub_unified_from_code)]
-fn c07_conv_inside_pino() {
-    conv::<Pino>(INSIDE);
+fn c07_l1_b_inside_pino() {
+    l1::<Pino>(TOKEN_B, INSIDE);
 }
 
-/// L1/L3 `pino_next_fee_growths_inside` + `pino_next_tick_modify_liquidity_update`: an uninitialised bound counts exactly like the tick the first deposit creates (all 3 combinations with an uninitialised bound), current tick above
+/// L1 `pino_next_fee_growths_inside` token B: global += x at fixed current tick, cur >= upper: inside unchanged; both bounds initialised, all u128 values incl. wrap-around
 // @verif prop=C07 tier=quick timeout=300
 #[kani::proof]
 #[kani::unwind(34)]
 #[kani::stub(alloc::fmt::format, stub_format)]
 #[kani::stub(<anchor_lang::error::Error as core::convert::From<::whirlpool::errors::ErrorCode>>::from, stub_err_from_code)]
 #[kani::stub(<::whirlpool::pinocchio::errors::UnifiedError as core::convert::From<::whirlpool::errors::ErrorCode>>::from, stub_unified_from_code)]
-fn c07_conv_above_pino() {
-    conv::<Pino>(ABOVE);
+fn c07_l1_b_above_pino() {
+    l1::<Pino>(TOKEN_B, ABOVE);
 }
 
-/// L2 `next_tick_cross_update` + `pino_next_fee_growths_inside`: crossing initialised tick t leaves `inside` (A, B) of range [lower, upper) unchanged; t == lower, a_to_b (cur >= t before, t - 1 after)
+/// L1/L3 `pino_next_fee_growths_inside` + `pino_next_tick_modify_liquidity_update` token A: an uninitialised bound counts exactly like the tick the first deposit creates (all 3 combinations with an uninitialised bound), current tick below
 // @verif prop=C07 tier=quick timeout=300
 #[kani::proof]
 #[kani::unwind(34)]
 #[kani::stub(alloc::fmt::format, stub_format)]
 #[kani::stub(<anchor_lang::error::Error as core::convert::From<::whirlpool::errors::ErrorCode>>::from, stub_err_from_code)]
 #[kani::stub(<::whirlpool::pinocchio::errors::UnifiedError as core::convert::From<::whirlpool::errors::ErrorCode>>::from, stub_unified_from_code)]
-fn c07_l2_lower_down_pino() {
-    l2::<Pino>(LOWER, true);
+fn c07_conv_a_below_pino() {
+    conv::<Pino>(TOKEN_A, BELOW);
 }
 
-/// L2 `next_tick_cross_update` + `pino_next_fee_growths_inside`: crossing initialised tick t leaves `inside` (A, B) of range [lower, upper) unchanged; t == lower, b_to_a (cur < t before, t after)
+/// L1/L3 `pino_next_fee_growths_inside` + `pino_next_tick_modify_liquidity_update` token A: an uninitialised bound counts exactly like the tick the first deposit creates (all 3 combinations with an uninitialised bound), current tick inside
 // @verif prop=C07 tier=quick timeout=300
 #[kani::proof]
 #[kani::unwind(34)]
 #[kani::stub(alloc::fmt::format, stub_format)]
 #[kani::stub(<anchor_lang::error::Error as core::convert::From<::whirlpool::errors::ErrorCode>>::from, stub_err_from_code)]
 #[kani::stub(<::whirlpool::pinocchio::errors::UnifiedError as core::convert::From<::whirlpool::errors::ErrorCode>>::from, stub_unified_from_code)]
-fn c07_l2_lower_up_pino() {
-    l2::<Pino>(LOWER, false);
+fn c07_conv_a_inside_pino() {
+    conv::<Pino>(TOKEN_A, INSIDE);
 }
 
-/// L2 `next_tick_cross_update` + `pino_next_fee_growths_inside`: crossing initialised tick t leaves `inside` (A, B) of range [lower, upper) unchanged; t == upper, a_to_b (cur >= t before, t - 1 after)
+/// L1/L3 `pino_next_fee_growths_inside` + `pino_next_tick_modify_liquidity_update` token A: an uninitialised bound counts exactly like the tick the first deposit creates (all 3 combinations with an uninitialised bound), current tick above
 // @verif prop=C07 tier=quick timeout=300
 #[kani::proof]
 #[kani::unwind(34)]
 #[kani::stub(alloc::fmt::format, stub_format)]
 #[kani::stub(<anchor_lang::error::Error as core::convert::From<::whirlpool::errors::ErrorCode>>::from, stub_err_from_code)]
 #[kani::stub(<::whirlpool::pinocchio::errors::UnifiedError as core::convert::From<::whirlpool::errors::ErrorCode>>::from, stub_unified_from_code)]
-fn c07_l2_upper_down_pino() {
-    l2::<Pino>(UPPER, true);
+fn c07_conv_a_above_pino() {
+    conv::<Pino>(TOKEN_A, ABOVE);
 }
 
-/// L2 `next_tick_cross_update` + `pino_next_fee_growths_inside`: crossing initialised tick t leaves `inside` (A, B) of range [lower, upper) unchanged; t == upper, b_to_a (cur < t before, t after)
+/// L1/L3 `pino_next_fee_growths_inside` + `pino_next_tick_modify_liquidity_update` token B: an uninitialised bound counts exactly like the tick the first deposit creates (all 3 combinations with an uninitialised bound), current tick below
 // @verif prop=C07 tier=quick timeout=300
 #[kani::proof]
 #[kani::unwind(34)]
 #[kani::stub(alloc::fmt::format, stub_format)]
 #[kani::stub(<anchor_lang::error::Error as core::convert::From<::whirlpool::errors::ErrorCode>>::from, stub_err_from_code)]
 #[kani::stub(<::whirlpool::pinocchio::errors::UnifiedError as core::convert::From<::whirlpool::errors::ErrorCode>>::from, stub_unified_from_code)]
-fn c07_l2_upper_up_pino() {
-    l2::<Pino>(UPPER, false);
+fn c07_conv_b_below_pino() {
+    conv::<Pino>(TOKEN_B, BELOW);
 }
 
-/// L2 `next_tick_cross_update` + `pino_next_fee_growths_inside`: crossing initialised tick t leaves `inside` (A, B) of range [lower, upper) unchanged; t is neither bound (below / above / strictly inside the range), a_to_b (cur >= t before, t - 1 after)
+/// L1/L3 `pino_next_fee_growths_inside` + `pino_next_tick_modify_liquidity_update` token B: an uninitialised bound counts exactly like the tick the first deposit creates (all 3 combinations with an uninitialised bound), current tick inside
 // @verif prop=C07 tier=quick timeout=300
 #[kani::proof]
 #[kani::unwind(34)]
 #[kani::stub(alloc::fmt::format, stub_format)]
 #[kani::stub(<anchor_lang::error::Error as core::convert::From<::whirlpool::errors::ErrorCode>>::from, stub_err_from_code)]
 #[kani::stub(<::whirlpool::pinocchio::errors::UnifiedError as core::convert::From<::whirlpool::errors::ErrorCode>>::from, stub_unified_from_code)]
-fn c07_l2_other_down_pino() {
-    l2::<Pino>(OTHER, true);
+fn c07_conv_b_inside_pino() {
+    conv::<Pino>(TOKEN_B, INSIDE);
 }
 
-/// L2 `next_tick_cross_update` + `pino_next_fee_growths_inside`: crossing initialised tick t leaves `inside` (A, B) of range [lower, upper) unchanged; t is neither bound (below / above / strictly inside the range), b_to_a (cur < t before, t after)
+/// L1/L3 `pino_next_fee_growths_inside` + `pino_next_tick_modify_liquidity_update` token B: an uninitialised bound counts exactly like the tick the first deposit creates (all 3 combinations with an uninitialised bound), current tick above
 // @verif prop=C07 tier=quick timeout=300
 #[kani::proof]
 #[kani::unwind(34)]
 #[kani::stub(alloc::fmt::format, stub_format)]
 #[kani::stub(<anchor_lang::error::Error as core::convert::From<::whirlpool::errors::ErrorCode>>::from, stub_err_from_code)]
 #[kani::stub(<::whirlpool::pinocchio::errors::UnifiedError as core::convert::From<::whirlpool::errors::ErrorCode>>::from, stub_unified_from_code)]
-fn c07_l2_other_up_pino() {
-    l2::<Pino>(OTHER, false);
+fn c07_conv_b_above_pino() {
+    conv::<Pino>(TOKEN_B, ABOVE);
 }
 
-/// L3 `pino_next_tick_modify_liquidity_update`: initialisation convention outside := global iff tick_index <= cur; outside untouched while gross != 0 (so `inside` of ranges sharing the bound is unchanged); zero tick on de-initialisation
+/// L2 `next_tick_cross_update` + `pino_next_fee_growths_inside` token A: crossing initialised tick t leaves `inside` of range [lower, upper) unchanged; t == lower, a_to_b (cur >= t before, t - 1 after)
+// @verif prop=C07 tier=quick timeout=300
+#[kani::proof]
+#[kani::unwind(34)]
+#[kani::stub(alloc::fmt::format, stub_format)]
+#[kani::stub(<anchor_lang::error::Error as core::convert::From<::whirlpool::errors::ErrorCode>>::from, stub_err_from_code)]
+#[kani::stub(<::whirlpool::pinocchio::errors::UnifiedError as core::convert::From<::whirlpool::errors::ErrorCode>>::from, stub_unified_from_code)]
+fn c07_l2_a_lower_down_pino() {
+    l2::<Pino>(TOKEN_A, LOWER, true);
+}
+
+/// L2 `next_tick_cross_update` + `pino_next_fee_growths_inside` token A: crossing initialised tick t leaves `inside` of range [lower, upper) unchanged; t == lower, b_to_a (cur < t before, t after)
+// @verif prop=C07 tier=quick timeout=300
+#[kani::proof]
+#[kani::unwind(34)]
+#[kani::stub(alloc::fmt::format, stub_format)]
+#[kani::stub(<anchor_lang::error::Error as core::convert::From<::whirlpool::errors::ErrorCode>>::from, stub_err_from_code)]
+#[kani::stub(<::whirlpool::pinocchio::errors::UnifiedError as core::convert::From<::whirlpool::errors::ErrorCode>>::from, stub_unified_from_code)]
+fn c07_l2_a_lower_up_pino() {
+    l2::<Pino>(TOKEN_A, LOWER, false);
+}
+
+/// L2 `next_tick_cross_update` + `pino_next_fee_growths_inside` token A: crossing initialised tick t leaves `inside` of range [lower, upper) unchanged; t == upper, a_to_b (cur >= t before, t - 1 after)
+// @verif prop=C07 tier=quick timeout=300
+#[kani::proof]
+#[kani::unwind(34)]
+#[kani::stub(alloc::fmt::format, stub_format)]
+#[kani::stub(<anchor_lang::error::Error as core::convert::From<::whirlpool::errors::ErrorCode>>::from, stub_err_from_code)]
+#[kani::stub(<::whirlpool::pinocchio::errors::UnifiedError as core::convert::From<::whirlpool::errors::ErrorCode>>::from, stub_unified_from_code)]
+fn c07_l2_a_upper_down_pino() {
+    l2::<Pino>(TOKEN_A, UPPER, true);
+}
+
+/// L2 `next_tick_cross_update` + `pino_next_fee_growths_inside` token A: crossing initialised tick t leaves `inside` of range [lower, upper) unchanged; t == upper, b_to_a (cur < t before, t after)
+// @verif prop=C07 tier=quick timeout=300
+#[kani::proof]
+#[kani::unwind(34)]
+#[kani::stub(alloc::fmt::format, stub_format)]
+#[kani::stub(<anchor_lang::error::Error as core::convert::From<::whirlpool::errors::ErrorCode>>::from, stub_err_from_code)]
+#[kani::stub(<::whirlpool::pinocchio::errors::UnifiedError as core::convert::From<::whirlpool::errors::ErrorCode>>::from, stub_unified_from_code)]
+fn c07_l2_a_upper_up_pino() {
+    l2::<Pino>(TOKEN_A, UPPER, false);
+}
+
+/// L2 `next_tick_cross_update` + `pino_next_fee_growths_inside` token A: crossing initialised tick t leaves `inside` of range [lower, upper) unchanged; t is neither bound (below / above / strictly inside the range), a_to_b (cur >= t before, t - 1 after)
+// @verif prop=C07 tier=quick timeout=300
+#[kani::proof]
+#[kani::unwind(34)]
+#[kani::stub(alloc::fmt::format, stub_format)]
+#[kani::stub(<anchor_lang::error::Error as core::convert::From<::whirlpool::errors::ErrorCode>>::from, stub_err_from_code)]
+#[kani::stub(<::whirlpool::pinocchio::errors::UnifiedError as core::convert::From<::whirlpool::errors::ErrorCode>>::from, stub_unified_from_code)]
+fn c07_l2_a_other_down_pino() {
+    l2::<Pino>(TOKEN_A, OTHER, true);
+}
+
+/// L2 `next_tick_cross_update` + `pino_next_fee_growths_inside` token A: crossing initialised tick t leaves `inside` of range [lower, upper) unchanged; t is neither bound (below / above / strictly inside the range), b_to_a (cur < t before, t after)
+// @verif prop=C07 tier=quick timeout=300
+#[kani::proof]
+#[kani::unwind(34)]
+#[kani::stub(alloc::fmt::format, stub_format)]
+#[kani::stub(<anchor_lang::error::Error as core::convert::From<::whirlpool::errors::ErrorCode>>::from, stub_err_from_code)]
+#[kani::stub(<::whirlpool::pinocchio::errors::UnifiedError as core::convert::From<::whirlpool::errors::ErrorCode>>::from, stub_unified_from_code)]
+fn c07_l2_a_other_up_pino() {
+    l2::<Pino>(TOKEN_A, OTHER, false);
+}
+
+/// L2 `next_tick_cross_update` + `pino_next_fee_growths_inside` token B: crossing initialised tick t leaves `inside` of range [lower, upper) unchanged; t == lower, a_to_b (cur >= t before, t - 1 after)
+// @verif prop=C07 tier=quick timeout=300
+#[kani::proof]
+#[kani::unwind(34)]
+#[kani::stub(alloc::fmt::format, stub_format)]
+#[kani::stub(<anchor_lang::error::Error as core::convert::From<::whirlpool::errors::ErrorCode>>::from, stub_err_from_code)]
+#[kani::stub(<::whirlpool::pinocchio::errors::UnifiedError as core::convert::From<::whirlpool::errors::ErrorCode>>::from, stub_unified_from_code)]
+fn c07_l2_b_lower_down_pino() {
+    l2::<Pino>(TOKEN_B, LOWER, true);
+}
+
+/// L2 `next_tick_cross_update` + `pino_next_fee_growths_inside` token B: crossing initialised tick t leaves `inside` of range [lower, upper) unchanged; t == lower, b_to_a (cur < t before, t after)
+// @verif prop=C07 tier=quick timeout=300
+#[kani::proof]
+#[kani::unwind(34)]
+#[kani::stub(alloc::fmt::format, stub_format)]
+#[kani::stub(<anchor_lang::error::Error as core::convert::From<::whirlpool::errors::ErrorCode>>::from, stub_err_from_code)]
+#[kani::stub(<::whirlpool::pinocchio::errors::UnifiedError as core::convert::From<::whirlpool::errors::ErrorCode>>::from, stub_unified_from_code)]
+fn c07_l2_b_lower_up_pino() {
+    l2::<Pino>(TOKEN_B, LOWER, false);
+}
+
+/// L2 `next_tick_cross_update` + `pino_next_fee_growths_inside` token B: crossing initialised tick t leaves `inside` of range [lower, upper) unchanged; t == upper, a_to_b (cur >= t before, t - 1 after)
+// @verif prop=C07 tier=quick timeout=300
+#[kani::proof]
+#[kani::unwind(34)]
+#[kani::stub(alloc::fmt::format, stub_format)]
+#[kani::stub(<anchor_lang::error::Error as core::convert::From<::whirlpool::errors::ErrorCode>>::from, stub_err_from_code)]
+#[kani::stub(<::whirlpool::pinocchio::errors::UnifiedError as core::convert::From<::whirlpool::errors::ErrorCode>>::from, stub_unified_from_code)]
+fn c07_l2_b_upper_down_pino() {
+    l2::<Pino>(TOKEN_B, UPPER, true);
+}
+
+/// L2 `next_tick_cross_update` + `pino_next_fee_growths_inside` token B: crossing initialised tick t leaves `inside` of range [lower, upper) unchanged; t == upper, b_to_a (cur < t before, t after)
+// @verif prop=C07 tier=quick timeout=300
+#[kani::proof]
+#[kani::unwind(34)]
+#[kani::stub(alloc::fmt::format, stub_format)]
+#[kani::stub(<anchor_lang::error::Error as core::convert::From<::whirlpool::errors::ErrorCode>>::from, stub_err_from_code)]
+#[kani::stub(<::whirlpool::pinocchio::errors::UnifiedError as core::convert::From<::whirlpool::errors::ErrorCode>>::from, stub_unified_from_code)]
+fn c07_l2_b_upper_up_pino() {
+    l2::<Pino>(TOKEN_B, UPPER, false);
+}
+
+/// L2 `next_tick_cross_update` + `pino_next_fee_growths_inside` token B: crossing initialised tick t leaves `inside` of range [lower, upper) unchanged; t is neither bound (below / above / strictly inside the range), a_to_b (cur >= t before, t - 1 after)
+// @verif prop=C07 tier=quick timeout=300
+#[kani::proof]
+#[kani::unwind(34)]
+#[kani::stub(alloc::fmt::format, stub_format)]
+#[kani::stub(<anchor_lang::error::Error as core::convert::From<::whirlpool::errors::ErrorCode>>::from, stub_err_from_code)]
+#[kani::stub(<::whirlpool::pinocchio::errors::UnifiedError as core::convert::From<::whirlpool::errors::ErrorCode>>::from, stub_unified_from_code)]
+fn c07_l2_b_other_down_pino() {
+    l2::<Pino>(TOKEN_B, OTHER, true);
+}
+
+/// L2 `next_tick_cross_update` + `pino_next_fee_growths_inside` token B: crossing initialised tick t leaves `inside` of range [lower, upper) unchanged; t is neither bound (below / above / strictly inside the range), b_to_a (cur < t before, t after)
+// @verif prop=C07 tier=quick timeout=300
+#[kani::proof]
+#[kani::unwind(34)]
+#[kani::stub(alloc::fmt::format, stub_format)]
+#[kani::stub(<anchor_lang::error::Error as core::convert::From<::whirlpool::errors::ErrorCode>>::from, stub_err_from_code)]
+#[kani::stub(<::whirlpool::pinocchio::errors::UnifiedError as core::convert::From<::whirlpool::errors::ErrorCode>>::from, stub_unified_from_code)]
+fn c07_l2_b_other_up_pino() {
+    l2::<Pino>(TOKEN_B, OTHER, false);
+}
+
+/// L3 `pino_next_tick_modify_liquidity_update`: initialisation convention outside := global iff tick_index <= cur (A and B); outside and `initialized` untouched while gross != 0; zero tick on de-initialisation
 // @verif prop=C07 tier=quick timeout=300
 #[kani::proof]
 #[kani::unwind(34)]
@@ -875,6 +1316,17 @@ fn c07_l3_modify_pino() {
     l3::<Pino>();
 }
 
+/// frame `pino_next_fee_growths_inside`: depends on a bound tick only through `initialized` and `fee_growth_outside_a/b` (other ranges sharing a bound, other ticks: no influence)
+// @verif prop=C07 tier=quick timeout=300
+#[kani::proof]
+#[kani::unwind(34)]
+#[kani::stub(alloc::fmt::format, stub_format)]
+#[kani::stub(<anchor_lang::error::Error as core::convert::From<::whirlpool::errors::ErrorCode>>::from, stub_err_from_code)]
+#[kani::stub(<::whirlpool::pinocchio::errors::UnifiedError as core::convert::From<::whirlpool::errors::ErrorCode>>::from, stub_unified_from_code)]
+fn c07_frame_inside_pino() {
+    frame::<Pino>();
+}
+
 /// L4 `pino_next_position_modify_liquidity_update` (tokens A, B): credit structure with `checked_mul_shift_right` uninterpreted: owed += F(L, inside - checkpoint mod 2^128), +0 when F overflows; checkpoint := inside; liquidity += delta or error
 // @verif prop=C07 tier=quick timeout=300
 #[kani::proof]
@@ -882,7 +1334,7 @@ fn c07_l3_modify_pino() {
 #[kani::stub(alloc::fmt::format, stub_format)]
 #[kani::stub(<anchor_lang::error::Error as core::convert::From<::whirlpool::errors::ErrorCode>>::from, stub_err_from_code)]
 #[kani::stub(<::whirlpool::pinocchio::errors::UnifiedError as core::convert::From<::whirlpool::errors::ErrorCode>>::from, stub_unified_from_code)]
-#[kani::stub(::whirlpool::math::bit_math::checked_mul_shift_right, memo::stub_checked_mul_shift_right)]
+#[kani::stub(::whirlpool::math::bit_math::checked_mul_shift_right, stub_mul_shift)]
 fn c07_l4_credit_pino() {
     l4::<Pino>();
 }
@@ -908,5 +1360,5 @@ fn c07_twin_must_fail() {
     let nlo = cross(&lo, ga, gb, &rw);
     let i0 = Anchor::fee_inside(cur, &lo, tl, &up, tu, ga, gb);
     let i1 = Anchor::fee_inside(cur, &nlo, tl, &up, tu, ga, gb);
-    assert!(i0 == i1, "twin: flipping a bound without moving the current tick must change inside");
+    assert!(i0.0 == i1.0, "twin: flipping a bound without moving the current tick must change inside");
 }
